@@ -137,15 +137,15 @@ Proof.
 Qed.
 
 (* ---------- binary search ---------- *)
-Lemma bsearch_spec : forall fuel f i j,
-  (i <= j)%nat -> (j - i <= fuel)%nat ->
+Lemma bsearch_spec : forall n fuel f i j,
+  (i <= j)%nat -> (j <= n)%nat -> (j - i <= fuel)%nat ->
   (forall x, (x < i)%nat -> f x = false) ->
-  (forall x, (j <= x)%nat -> f x = true) ->
-  (forall x y, (x <= y)%nat -> f x = true -> f y = true) ->
+  (forall x, (j <= x < n)%nat -> f x = true) ->
+  (forall x y, (x <= y < n)%nat -> f x = true -> f y = true) ->
   let r := bsearch fuel f i j in
-  (i <= r <= j)%nat /\ (forall x, (x < r)%nat -> f x = false) /\ (forall x, (r <= x)%nat -> f x = true).
+  (i <= r <= j)%nat /\ (forall x, (x < r)%nat -> f x = false) /\ (forall x, (r <= x < n)%nat -> f x = true).
 Proof.
-  induction fuel as [|k IH]; intros f i j Hij Hf Hlo Hhi Hmono; cbn [bsearch]; cbv zeta.
+  intros n; induction fuel as [|k IH]; intros f i j Hij Hjn Hf Hlo Hhi Hmono; cbn [bsearch]; cbv zeta.
   - assert (i = j) by lia; subst. repeat split; auto.
   - destruct (i <? j)%nat eqn:E.
     + apply Nat.ltb_lt in E.
@@ -154,7 +154,7 @@ Proof.
       destruct (f ((i + j) / 2)%nat) eqn:Fh.
       * specialize (IH f i ((i + j) / 2)%nat).
         destruct IH as (A & B & C); try lia; auto.
-        { intros x Hx; apply (Hmono ((i + j) / 2)%nat); auto. }
+        { intros x Hx; apply (Hmono ((i + j) / 2)%nat); auto; lia. }
         repeat split; auto; lia.
       * specialize (IH f (S ((i + j) / 2)) j).
         destruct IH as (A & B & C); try lia; auto.
@@ -216,4 +216,77 @@ Proof.
     rewrite in_app_iff in *; simpl in *. destruct H as [?|[<-|?]]; auto.
     exfalso; apply H1; apply in_map; auto. }
   rewrite sum_fees_app in *; simpl. destruct (payer_eqb (payer_of x) p); lia.
+Qed.
+
+(* ---------- insertion position ---------- *)
+Lemma sorted_nth : forall l d x y, sorted l -> (x <= y < length l)%nat -> ge_prio (nth x l d) (nth y l d).
+Proof.
+  induction l as [|a l IH]; intros d x y S H; simpl in H; [lia|].
+  apply sorted_cons_inv in S as [S Ha].
+  destruct x, y; simpl; try lia.
+  - unfold ge_prio; rewrite cmp_refl; lia.
+  - apply Ha. apply nth_In; lia.
+  - apply IH; auto; lia.
+Qed.
+
+Lemma in_firstn_nth : forall {A} (l : list A) n d a, In a (firstn n l) -> exists i, (i < n)%nat /\ (i < length l)%nat /\ nth i l d = a.
+Proof.
+  intros A; induction l as [|y l IH]; intros [|n] d a H; simpl in *; try contradiction.
+  destruct H as [<-|H]; [exists O; repeat split; auto; lia|].
+  destruct (IH n d a H) as (i & ? & ? & ?). exists (S i); repeat split; auto; lia.
+Qed.
+Lemma in_skipn_nth : forall {A} (l : list A) n d a, In a (skipn n l) -> exists i, (n <= i < length l)%nat /\ nth i l d = a.
+Proof.
+  intros A; induction l as [|y l IH]; intros [|n] d a H; simpl in *; try contradiction.
+  - destruct H as [<-|H]; [exists O; split; auto; lia|].
+    apply (In_nth _ _ d) in H as (i & ? & ?). exists (S i); split; auto; lia.
+  - destruct (IH n d a H) as (i & ? & ?). exists (S i); split; auto; lia.
+Qed.
+
+Lemma last_nth : forall {A} (l : list A) d, last l d = nth (pred (length l)) l d.
+Proof.
+  intros A; induction l as [|x [|y l] IH]; intros d; auto.
+  change (last (x :: y :: l) d) with (last (y :: l) d). rewrite IH. reflexivity.
+Qed.
+
+Lemma insert_pos_spec : forall t l,
+  sorted l ->
+  let n := insert_pos t l in
+  (n <= length l)%nat
+  /\ (forall a, In a (firstn n l) -> ge_prio a t)
+  /\ (forall b, In b (skipn n l) -> (0 < cmp t b)%Z).
+Proof.
+  intros t l S; unfold insert_pos.
+  destruct l as [|x l']; [simpl; repeat split; auto; intros ? []|].
+  set (l := x :: l') in *.
+  destruct (cmp t (last l t) =? 0)%Z eqn:E.
+  - apply Z.eqb_eq in E. rewrite firstn_all, skipn_all. repeat split; auto; [|intros ? []].
+    intros a Ha. apply (In_nth _ _ t) in Ha as (i & Hi & <-).
+    assert (L : last l t = nth (pred (length l)) l t) by (apply last_nth).
+    pose proof (sorted_nth l t i (pred (length l)) S) as G.
+    unfold ge_prio in *. rewrite <- L in G.
+    apply (cmp_trans_ge _ (last l t)); [apply G; lia|]. rewrite cmp_antisym; lia.
+  - unfold sort_search.
+    destruct (bsearch_spec (length l) (length l) (fun i => (0 <? cmp t (nth i l t))%Z) 0 (length l))
+      as (A & B & C); try lia.
+    + intros i1 i2 Hxy Hx. apply Z.ltb_lt in Hx. apply Z.ltb_lt.
+      eapply cmp_trans_gt_ge; eauto. apply sorted_nth; auto.
+    + repeat split; try lia.
+      * intros a Ha. apply (in_firstn_nth _ _ t) in Ha as (i & Hi & Hl & <-).
+        specialize (B i Hi). apply Z.ltb_ge in B. unfold ge_prio. rewrite cmp_antisym; lia.
+      * intros b Hb. apply (in_skipn_nth _ _ t) in Hb as (i & Hi & <-).
+        specialize (C i Hi). apply Z.ltb_lt in C; auto.
+Qed.
+
+Lemma NoDup_app_iff' : forall {A} (l1 l2 : list A),
+  NoDup (l1 ++ l2) <-> NoDup l1 /\ NoDup l2 /\ (forall x, In x l1 -> In x l2 -> False).
+Proof.
+  intros A; induction l1 as [|a l1 IH]; intros l2; simpl.
+  - split; [intros H; split; [constructor|split; [auto|intros ? []]] | tauto].
+  - split.
+    + intros H; inv H. apply IH in H3 as (N1 & N2 & N3). rewrite in_app_iff in H2.
+      repeat split; auto; [constructor; auto|]. intros x [<-|Hx] Hx2; eauto.
+    + intros (N1 & N2 & N3). inv N1. constructor.
+      * rewrite in_app_iff; intros [?|?]; eauto.
+      * apply IH; repeat split; eauto.
 Qed.
